@@ -19,8 +19,18 @@ pub fn test_case(case: &ModelCase) -> TestResult {
     let mut info = Info::default();
     let mut zero_score = false;
     let mut stats_all = oracle::ScoreStats::default();
+    // a different model over the same patterns, used to leave scores / automaton states of an
+    // earlier prediction on the sentence before the prediction under test
+    let mut alt = spec.clone();
+    alt.bias = alt.bias.wrapping_add(1000);
+    for g in alt.char_ngrams.iter_mut() {
+        g.weights.iter_mut().for_each(|w| *w = -*w / 2 + 3);
+    }
+    alt.dict.truncate(spec.dict.len() / 2);
+    let mut repredicted = false;
     for predict_tags in [false, true] {
         let p = util::predictor(spec, predict_tags)?;
+        let p_alt = util::predictor(&alt, !predict_tags)?;
         for (ti, text) in case.texts.iter().enumerate() {
             let cs = util::chars(text);
             let (expected, st) = oracle::ref_scores(spec, &cs);
@@ -30,6 +40,12 @@ pub fn test_case(case: &ModelCase) -> TestResult {
             } else {
                 Sentence::from_raw(text.clone()).map_err(|e| format!("from_raw: {e}"))?
             };
+            if ti % 3 == 2 || (ti == 0 && case.texts.len() == 1 && cs.len() % 2 == 0) {
+                // re-prediction without an update in between: the earlier result must be
+                // overwritten completely
+                p_alt.predict(&mut s);
+                repredicted = true;
+            }
             p.predict(&mut s);
             let got = util::scores_i64(&s);
             ensure_eq!(
@@ -97,7 +113,8 @@ pub fn test_case(case: &ModelCase) -> TestResult {
             "window-255",
         )
         .class(!spec.tag_models.is_empty(), "has-tag-models(BoundaryTag scorers)")
-        .class(!spec.dict.is_empty(), "has-dictionary");
+        .class(!spec.dict.is_empty(), "has-dictionary")
+        .class(repredicted, "re-predicted-after-another-predictor");
     Ok(info)
 }
 
